@@ -329,7 +329,11 @@ macro_rules! bezier_impl_cubic_axis {
                 }
 
                 // There is one Real solution for the equation
-                if discriminant.abs() <= T::epsilon() {
+                // NOTE: The discriminant scales with the square of the coordinates, so it is compared
+                // to b² (the magnitude it was computed from), not to an absolute epsilon, which would
+                // take two well separated roots of a small curve (coordinates around 1e-4 in f32,
+                // 1e-8 in f64) for a double root.
+                if discriminant <= T::epsilon() * b * b {
                     let t = -b / (a + a);
                     return if is_between01(t) {
                         Some((t, None))
